@@ -1267,6 +1267,78 @@ def head_unit(prop):
     return Unit(f'{prop}.snapshot_head', REPO_PY, 'Repository.snapshot', head_setup, head_post(prop), stmt=(head_start, head_end), prop=prop)
 
 
+# ------------------------------------------------------------------ snapshot(): the state shared by producer, workers and callbacks is per call
+def locals_start(stmt):
+    return head_end(stmt)
+
+
+def locals_end(stmt):
+    return isinstance(stmt, (_ast.FunctionDef, _ast.AsyncFunctionDef))
+
+
+def locals_setup(b):
+    me = shared.repo_self(b, cache=False)
+    b.me = me
+    b.sym('rate_limit', Opt(INT))
+    b.made = []
+
+    def maker(name, lenient=True):
+        def m(interp, st, args, kwargs):
+            o = Obj(f'<{name} made by this call>')
+            o._lenient = True
+            o._made_here = True
+            st.emit('made', what=name, obj=o)
+            yield st, o
+        return Model(name, m)
+
+    asyncio_ = Obj('asyncio', get_running_loop=maker('running loop'), get_event_loop=maker('running loop'))
+    asyncio_._lenient = True
+    b.bind('asyncio', asyncio_)
+    q = Obj('queue', Queue=maker('queue.Queue'), SimpleQueue=maker('queue.SimpleQueue'), LifoQueue=maker('queue.LifoQueue'))
+    q._lenient = True
+    b.bind('queue', q)
+    b.bind('ThreadPoolExecutor', maker('ThreadPoolExecutor'))
+    th = Obj('threading', Event=maker('threading.Event'), Lock=maker('threading.Lock'), RLock=maker('threading.RLock'))
+    th._lenient = True
+    b.bind('threading', th)
+    ut = Obj('utils', RateLimitedIO=maker('utils.RateLimitedIO'))
+    ut._lenient = True
+    b.bind('utils', ut)
+    b.bind('_SnapshotState', maker('_SnapshotState'))
+
+
+SHARED_LOCALS = ('chunk_queue', 'abort', 'state', 'chunks_table', 'snapshot_files')
+
+
+def locals_post(prop):
+    def post(res):
+        from vf.interp import Unknown, PyRef
+        n = 0
+        for p in res.paths:
+            if p.kind == 'raise':
+                continue
+            n += 1
+            made_now = [e.data['obj'] for e in p.events('made')]
+            for name in SHARED_LOCALS:
+                if not p.st.has(name):
+                    continue                      # a local the code no longer has: nothing to say about it here
+                v = p.st.lookup(name)
+                # what the producer thread, the workers and the callbacks of ONE snapshot share (queue, abort flag, stream state, chunk and
+                # file tables) is created by this call: nothing of an earlier (failed, concurrent) snapshot of the same object is visible
+                ok = (isinstance(v, Obj) and any(v is o for o in made_now)) or (isinstance(v, PyRef) and v.id >= 0 and not isinstance(v, Unknown))
+                if isinstance(v, PyRef):
+                    c = res.interp.deref(p.st, v)
+                    ok = ok and len(c) == 0       # a fresh, EMPTY container literal
+                res.oblige(p, f'{prop}.locals.shared_state_of_a_snapshot_is_created_by_this_call[{name}]', z3.BoolVal(bool(ok)),
+                           meta={'value': repr(v)[:80]})
+        res.oblige([], f'{prop}.locals.paths_checked', z3.BoolVal(n >= 1))
+    return post
+
+
+def locals_unit(prop):
+    return Unit(f'{prop}.snapshot_locals', REPO_PY, 'Repository.snapshot', locals_setup, locals_post(prop), stmt=(locals_start, locals_end), prop=prop)
+
+
 # ------------------------------------------------------------------ snapshot(): how the producer is started
 def pstart_start(stmt):
     return isinstance(stmt, _ast.Assign) and isinstance(stmt.targets[0], _ast.Name) and stmt.targets[0].id == 'chunk_producer'
